@@ -194,11 +194,15 @@ theorem slice_payload_valid (S : Schema) (src : Node) (f t : Nat) (sl : Slice)
   positions (range, order, pair alignment), on validity or normal form of the document or of the
   payload is needed: the statements hold for arbitrary payloads.
 
-  Limit of the model (reported, not hidden): `replaceKids` and `sliceKids` answer `to < from` with
-  `.valueError`; the code has no such check.  There `Node.slice` returns an empty slice with the open
-  depths of the two positions, and e.g. `AddMarkStep(1, 0, em).apply(doc(p("ab")))` dies with
-  `IndexError` (`replace_two_way` → `joinable` → `ResolvedPos.node`).  So about the *code* these
-  theorems speak for ordered positions (`StepOrdered`) only. -/
+  Ranges that end before they start.  When these theorems were first proved the model answered
+  `to < from` with `.valueError` while the code had no such check: `Node.slice` returned an empty
+  slice with the open depths of the two positions and `AddMarkStep(1, 0, em).apply(…)` died with
+  `IndexError` (`replace_two_way` → `joinable` → `ResolvedPos.node`).  That was a violation of C01
+  inside its quantifier (both positions lie in the document) and is repaired in /repo (`replace()`
+  refuses such a range with a ReplaceError); the model follows (`rangeErr` in PM/Replace.lean), the
+  check reports an internal error at unordered in-document positions as a violation, and
+  `Node.slice` of an unordered range (still answered `.valueError` by `sliceKids`, a ValueError-class
+  outcome like the code's failed result) is compared at the class level only. -/
 
 /-- the document is an element node (`Node.replace` on a text node is a TypeError in the code) -/
 def IsElem (doc : Node) : Prop := doc.isLeaf = false
